@@ -28,8 +28,14 @@ func (o agentOp) String() string {
 	case "stop":
 		return fmt.Sprintf("Stop(%s)", agentIDName(o.ID))
 	case "stoperr":
+		if o.H == 1 {
+			return fmt.Sprintf("StopWithError(%s,nil)", agentIDName(o.ID))
+		}
 		return fmt.Sprintf("StopWithError(%s,custom)", agentIDName(o.ID))
 	case "process":
+		if o.H >= 4 {
+			return fmt.Sprintf("Process(%s,%s FINGERPRINT)", agentIDName(o.ID), []string{"right", "wrong"}[o.H-4])
+		}
 		if o.H != 0 {
 			return fmt.Sprintf("Process(%s,class %d)", agentIDName(o.ID), o.H)
 		}
@@ -144,11 +150,14 @@ func agentAlphabet() []agentOp {
 	for id := 0; id < 3; id++ {
 		ops = append(ops, agentOp{Kind: "stoperr", ID: id})
 	}
+	ops = append(ops, agentOp{Kind: "stoperr", ID: 0, H: 1}) // a nil error: the event carries what it was given
 	for id := 0; id < 4; id++ {
 		ops = append(ops, agentOp{Kind: "process", ID: id})
 	}
 	// the class of the processed message must not matter: indication, success and error responses
 	ops = append(ops, agentOp{Kind: "process", ID: 0, H: 1}, agentOp{Kind: "process", ID: 1, H: 2}, agentOp{Kind: "process", ID: 2, H: 3})
+	// nor what it carries: a message with a FINGERPRINT that is right (H 4) or wrong (H 5) is a message with that id
+	ops = append(ops, agentOp{Kind: "process", ID: 1, H: 4}, agentOp{Kind: "process", ID: 0, H: 5})
 	for t := 1; t <= 5; t++ {
 		ops = append(ops, agentOp{Kind: "collect", T: t})
 	}
@@ -171,6 +180,7 @@ type agentRun struct {
 	reentry   int // 0 none, 1 Stop(same id), 2 Start(same id,t4), 3 Collect(t5), 4 Process(same id)
 	depth     int
 	nestedRet string
+	panicked  bool
 	nestedEv  []ref.AgentEvent
 	nestedOn  *ref.AgentEvent
 }
@@ -222,6 +232,8 @@ func (r *agentRun) handler(n int) stun.Handler {
 			ev.Kind, ev.Arg = ref.EvStopped, "ErrTransactionStopped"
 		case errors.Is(e.Error, errCustomStop):
 			ev.Kind, ev.Arg = ref.EvStopped, "custom"
+		case e.Error == nil && e.Message == nil:
+			ev.Kind, ev.Arg = ref.EvStopped, "nil"
 		default:
 			ev.Kind = fmt.Sprintf("unknown(%v)", e.Error)
 		}
@@ -233,6 +245,13 @@ func (r *agentRun) handler(n int) stun.Handler {
 			return
 		}
 		r.events = append(r.events, ev)
+		if r.reentry == 5 {
+			// (not from Close events: Close runs its handlers under the agent's lock, by design; see C14)
+			if ev.Kind != ref.EvClosed && len(r.events) == 1 {
+				panic(errC13HandlerPanic)
+			}
+			return
+		}
 		if r.reentry != 0 && r.nestedOn == nil && ev.Kind != ref.EvClosed {
 			evc := ev
 			r.nestedOn = &evc
@@ -254,6 +273,22 @@ func (r *agentRun) handler(n int) stun.Handler {
 	}
 }
 
+var errC13HandlerPanic = errors.New("c13: the handler panics")
+
+// guard runs one agent call; a panic of the handler (reentry mode 5) that comes through the call is recovered here, the
+// way a caller with a recover would.
+func (r *agentRun) guard(f func()) {
+	defer func() {
+		if rec := recover(); rec != nil {
+			if rec != errC13HandlerPanic {
+				panic(rec)
+			}
+			r.panicked = true
+		}
+	}()
+	f()
+}
+
 func newAgentRun() *agentRun {
 	r := &agentRun{model: ref.NewAgentModel(1)}
 	r.hs[1], r.hs[2] = r.handler(1), r.handler(2)
@@ -267,6 +302,7 @@ func (r *agentRun) apply(op agentOp) (key, detail string) {
 	r.events = r.events[:0]
 	r.curMsg = nil
 	r.nestedOn, r.nestedEv, r.nestedRet = nil, nil, ""
+	r.panicked = false
 	var err error
 	var wantRet string
 	var wantEv []ref.AgentEvent
@@ -274,27 +310,61 @@ func (r *agentRun) apply(op agentOp) (key, detail string) {
 	name := agentIDName(op.ID)
 	switch op.Kind {
 	case "start":
-		err = r.a.Start(id, agentTime(op.T))
+		r.guard(func() { err = r.a.Start(id, agentTime(op.T)) })
 		wantRet = r.model.Start(name, agentTimeRank(op.T))
 	case "stop":
-		err = r.a.Stop(id)
+		r.guard(func() { err = r.a.Stop(id) })
 		wantRet, wantEv = r.model.Stop(name, "ErrTransactionStopped")
 	case "stoperr":
-		err = r.a.StopWithError(id, errCustomStop)
-		wantRet, wantEv = r.model.Stop(name, "custom")
+		if op.H == 1 {
+			r.guard(func() { err = r.a.StopWithError(id, nil) })
+			wantRet, wantEv = r.model.Stop(name, "nil")
+		} else {
+			r.guard(func() { err = r.a.StopWithError(id, errCustomStop) })
+			wantRet, wantEv = r.model.Stop(name, "custom")
+		}
 	case "process":
-		r.curMsg = &stun.Message{TransactionID: id, Type: stun.NewType(stun.MethodBinding, stun.MessageClass(op.H))}
-		err = r.a.Process(r.curMsg)
+		r.curMsg = &stun.Message{TransactionID: id, Type: stun.NewType(stun.MethodBinding, stun.MessageClass(op.H&3))}
+		if op.H >= 4 {
+			b := stun.MustBuild(stun.BindingSuccess, stun.NewTransactionIDSetter(id), stun.NewSoftware("c13"), stun.Fingerprint)
+			raw := append([]byte(nil), b.Raw...)
+			if op.H == 5 {
+				raw[len(raw)-1] ^= 0x01
+			}
+			r.curMsg = new(stun.Message)
+			if _, werr := r.curMsg.Write(raw); werr != nil {
+				panic("c13: fingerprinted message does not decode: " + werr.Error())
+			}
+		}
+		r.guard(func() { err = r.a.Process(r.curMsg) })
 		wantRet, wantEv = r.model.Process(name, "the-message")
 	case "collect":
-		err = r.a.Collect(agentTime(op.T))
+		r.guard(func() { err = r.a.Collect(agentTime(op.T)) })
 		wantRet, wantEv = r.model.Collect(agentTimeRank(op.T))
 	case "sethandler":
-		err = r.a.SetHandler(r.hs[op.H])
+		r.guard(func() { err = r.a.SetHandler(r.hs[op.H]) })
 		wantRet = r.model.SetHandler(op.H)
 	case "close":
-		err = r.a.Close()
+		r.guard(func() { err = r.a.Close() })
 		wantRet, wantEv = r.model.Close()
+	}
+	if r.panicked {
+		// the handler panicked at the first event of this call and the panic went through the call (the caller recovered
+		// it): the call had taken effect before it ran the handler, as always; what it would have reported after that
+		// event is lost with it. One event was seen, and it is one of those the specification lists.
+		ok := len(r.events) == 1
+		if ok {
+			ok = false
+			for _, e := range wantEv {
+				if e == r.events[0] {
+					ok = true
+				}
+			}
+		}
+		if !ok {
+			return "events/" + op.Kind, fmt.Sprintf("%v, whose handler panicked at its first event, emitted %v; specification says the first of %v", op, r.events, wantEv)
+		}
+		return "", ""
 	}
 	if got := retName(err); got != wantRet {
 		return "return/" + op.Kind, fmt.Sprintf("%v returned %s, specification says %s", op, got, wantRet)
@@ -735,12 +805,17 @@ func init() {
 			var rrec func(pos int)
 			rrec = func(pos int) {
 				if pos == rdepth {
-					for mode := 1; mode <= 4; mode++ {
+					for mode := 1; mode <= 5; mode++ { // (5: the handler panics at the first event of each call, the caller recovers)
 						c.Eval(1)
 						c.DistinctByConstruction++
 						c.Res.Traces++
-						if _, key, detail := c13RunSeqMode(rseq, mode); key != "" {
-							c.Violation(key, detail, map[string]interface{}{"reentry": mode, "ops": append([]agentOp(nil), rseq...)})
+						seq := rseq
+						if mode == 5 {
+							// what a call whose handler panicked left behind shows at the latest when the agent is closed
+							seq = append(append([]agentOp(nil), rseq...), agentOp{Kind: "close"})
+						}
+						if _, key, detail := c13RunSeqMode(seq, mode); key != "" {
+							c.Violation(key, detail, map[string]interface{}{"reentry": mode, "ops": append([]agentOp(nil), seq...)})
 							return
 						}
 					}
@@ -821,7 +896,7 @@ func init() {
 			var mr int64
 			for _, n := range []int{1, 2, 3, 50, 99, 100, 101, 102, 150, 200, 201, 250, 1023, 1024, 1025, 1100} {
 				for _, k := range []int{n, n / 2, 1, 2} {
-					for mode := 1; mode <= 4; mode++ {
+					for mode := 1; mode <= 5; mode++ { // (5: the handler panics at the first event of each call, the caller recovers)
 						mr++
 						if k > n || k == 0 || ((mode == 2 || mode == 4) && k < 2) || !c.Mine(mr) {
 							continue // (modes 2 and 4 address another EXPIRED id: they need two)
